@@ -157,7 +157,8 @@ size_t varintDeltaDecodeUnsigned(const uint8_t *input, size_t count,
         varintWidth deltaBytes = varintDeltaGet(p, &delta);
         p += deltaBytes;
 
-        current = (uint64_t)((int64_t)current + delta);
+        /* unsigned arithmetic: wraps instead of overflowing a signed add */
+        current += (uint64_t)delta;
         output[i] = current;
     }
 
